@@ -107,6 +107,11 @@ def gen_model(rng, cfg=None, feats=None):
             n_cS = 1
     if n_dS + n_cS == 0:
         n_cS = 1
+    if cfg.get("n_cC") is not None:
+        n_cC = int(cfg["n_cC"])
+        if F["two_cont_choices"] and n_cC < 2:
+            F["two_cont_choices"] = False
+        cfg["max_choices"] = max(cfg["max_choices"], n_cC + min(n_dC, 2))
     # caps
     while n_dS + n_cS > cfg["max_states"]:
         if n_dS > 1 and (n_dS >= n_cS):
@@ -118,7 +123,7 @@ def gen_model(rng, cfg=None, feats=None):
     while n_dC + n_cC > cfg["max_choices"]:
         if n_dC > (2 if F["mixed_discrete"] else 1) and n_dC >= n_cC:
             n_dC -= 1
-        elif n_cC > (2 if F["two_cont_choices"] else 1):
+        elif n_cC > (2 if F["two_cont_choices"] else 1) and cfg.get("n_cC") is None:
             n_cC -= 1
         elif n_dC > 0 and not F["mixed_discrete"]:
             n_dC -= 1
